@@ -155,6 +155,10 @@ fn check(acc: &mut Acc, case: u64, sc: &Scenario, inj: &Injected, out: &Outcome,
     let dropped = matches!(inj, Injected::DropHandles(_));
     // 2. replies: whatever resolved Ok must be the right reply; completely delivered replies must resolve Ok
     c01::check(acc, case, sc, out, &a, false);
+    // no invented, duplicated or reordered subsystem event on the way down either (C04's prefix clause)
+    if garbage_at.is_none() {
+        super::c04::check(acc, case, sc, out, &a, false);
+    }
     let calls = a.calls();
     let total = a.total_delivered();
     let fault_log = a.log().iter().position(|e| matches!(e.kind, EvKind::Fault(_))).unwrap_or(usize::MAX);
